@@ -11,6 +11,7 @@ import datetime
 import json
 import logging
 import shutil
+import sqlite3
 from pathlib import Path
 
 import kdrv
@@ -505,18 +506,24 @@ class Impl:
         self.eng = kdrv.Engine(path=path, workdir=workdir)
         self._patch()
         self.connection = None
+        self.last_dump = None
 
     def _patch(self):
         ce = self.eng.engine._cryptography_engine
         ce.create_symmetric_key = det_key(ce.create_symmetric_key)
         ce.create_asymmetric_key_pair = det_key_pair(ce.create_asymmetric_key_pair)
+        import sqlalchemy
+
+        def short_busy_timeout(dbapi_connection, record):      # only matters when the harness holds a lock on purpose
+            dbapi_connection.execute('PRAGMA busy_timeout=60')
+        sqlalchemy.event.listen(self.eng.engine._data_store, 'connect', short_busy_timeout)
 
     @property
     def now(self):
         return self.eng.clock.t
 
     def store(self):
-        return abstract_store(self.eng.dump())
+        return abstract_store(self.dump())
 
     def reset(self, src):
         """Same engine object, database file replaced by a copy of `src` (keeps SQLAlchemy's statement cache warm)."""
@@ -526,27 +533,94 @@ class Impl:
         self.connection = None
         return self
 
-    def run(self, req, wire=None):
+    def dump(self):
+        """kdrv.Engine.dump with a short lock timeout (a held write lock must not cost 5 s per look)."""
+        con = sqlite3.connect(self.eng.path, timeout=0.25)
+        con.row_factory = sqlite3.Row
+        out = {}
+        try:
+            tables = [r[0] for r in con.execute("select name from sqlite_master where type='table' order by name")]
+            for t in tables:
+                rows = [dict(r) for r in con.execute('select * from "%s"' % t)]
+                for r in rows:
+                    for k, v in list(r.items()):
+                        if isinstance(v, (bytes, memoryview)):
+                            r[k] = bytes(v).hex()
+                rows.sort(key=lambda r: repr(sorted(r.items(), key=lambda kv: kv[0])))
+                if rows:
+                    out[t] = rows
+        finally:
+            con.close()
+        return out
+
+    def dump_or(self, fallback, unreadable):
+        """Raw dump of the store; when the engine's own connection still holds a write lock (a refused COMMIT that nobody rolled
+        back) the file cannot be read by others: nothing new can be visible, so the last readable dump stands."""
+        try:
+            return self.dump()
+        except sqlite3.OperationalError:
+            unreadable.append(True)
+            if fallback is None:
+                raise
+            return fallback
+
+    def run(self, req, wire=None, lock_items=()):
         """Process one abstract request (wire = {'max': n | None}: as bytes through the real KmipSession). -> observation dict (everything the oracles and the comparator need)."""
         e = self.eng.engine
         trace, touched = [], []
         real = e._process_operation
-        d_before = self.eng.dump()
+        unreadable = []
+        d_before = self.dump_or(self.last_dump, unreadable)
         last = [d_before]
 
+        pending = []                # sessions opened by the batch; their state is looked at when the next item starts / at close
+
+        def session_dirty(sess):
+            return bool(sess.dirty) or bool(sess.new) or bool(sess.deleted)
+
+        def settle(closed=False):
+            """What the item before left behind, looked at when the loop is done with it (after _process_batch had its chance to
+            roll back): store dump, session state, placeholder."""
+            if not trace or trace[-1][1] is not None:
+                return
+            after = self.dump_or(last[0], unreadable)
+            before = last[0]
+            pl = e._id_placeholder
+            trace[-1] = (before != after, bool(trace[-1][0]) if closed else session_dirty(e._data_session), int(pl) if pl is not None else None)
+            touched.append(touched_uids(before, after) if before != after else [])
+            last[0] = after
+
         def traced(operation, payload):
-            before = last[0]                     # nothing runs between two items but the loop itself
+            settle()
+            blocker = None
+            if len(trace) in lock_items:         # a second connection holds a read transaction: this item's COMMIT is refused
+                blocker = sqlite3.connect(self.eng.path, isolation_level=None, timeout=0.05)
+                blocker.execute('BEGIN')
+                blocker.execute('select count(*) from sqlite_master').fetchall()
             try:
                 return real(operation, payload)
             finally:
-                after = self.eng.dump()
-                s = e._data_session
-                dirty = bool(s.dirty) or bool(s.new) or bool(s.deleted)
-                pl = e._id_placeholder
-                trace.append((before != after, dirty, int(pl) if pl is not None else None))
-                touched.append(touched_uids(before, after) if before != after else [])
-                last[0] = after
+                if blocker is not None:
+                    blocker.execute('ROLLBACK')
+                    blocker.close()
+                trace.append((None, None, None))
+        real_factory = e._data_store_session_factory
+
+        def factory():
+            sess = real_factory()
+            real_close = sess.close
+
+            def close():
+                if trace and trace[-1][1] is None:
+                    trace[-1] = (session_dirty(sess), None, None)     # session state first, the dump once the session is closed
+                    real_close()
+                    settle(closed=True)
+                else:
+                    real_close()
+            sess.close = close
+            return sess
         e._process_operation = traced
+        e._data_store_session_factory = factory
         try:
             kw = dict(version=tuple(req['ver']), batch_option=OPTS[req['opt']], batch_order=req['order'],
                       time_stamp=(None if req['ts'] is None else self.now + req['ts']), asynchronous=req['async'])
@@ -557,7 +631,11 @@ class Impl:
                 r, size = self.through_session(req, kw, wire['max'], wire.get('same', False))
         finally:
             del e._process_operation
-        d_after = self.eng.dump()
+            e._data_store_session_factory = real_factory
+        trace[:] = [(c, bool(d), p) for c, d, p in trace]
+        final_unreadable = []
+        d_after = self.dump_or(last[0], final_unreadable)
+        self.last_dump = d_after
         envelope = response_envelope(r, tuple(req['ver']))
         err = None
         if r['error'] is not None:
@@ -569,7 +647,7 @@ class Impl:
                 err = 'UNKNOWN:' + r['error']['message']
         results = [{'op': i['op'], 'bid': i['bid'], 'ok': kdrv.ok(i), 'reason': i['reason'], 'message': i['message'],
                     'uid': kdrv.first_uid(i)} for i in r['items']]
-        return {'err': err, 'err_message': r['error'] and r['error']['message'], 'results': results, 'trace': trace, 'touched': touched, 'size': size, 'envelope': envelope,
+        return {'err': err, 'err_message': r['error'] and r['error']['message'], 'results': results, 'trace': trace, 'touched': touched, 'store_unreadable': bool(unreadable), 'final_store_unreadable': bool(final_unreadable), 'size': size, 'envelope': envelope,
                 'final': abstract_store(d_after), 'dump_before': d_before, 'dump_after': d_after,
                 'moved_outside_items': last[0] != d_after}
 
@@ -818,7 +896,7 @@ def limit_from(extra, obs):
     return 'not-this-request'
 
 
-def oracle(ctx, history, req_, pre_dump, obs, twin_factory=None, extra=None):
+def oracle(ctx, history, req_, pre_dump, obs, twin_factory=None, extra=None, extra_witness=None):
     """The property itself, evaluated on the implementation's behaviour alone.  -> list of violation kinds found."""
     found = []
     items, res, tr = req_['items'], obs['results'], obs['trace']
@@ -828,6 +906,8 @@ def oracle(ctx, history, req_, pre_dump, obs, twin_factory=None, extra=None):
 
     if extra:
         wit.update(extra)
+    if extra_witness:
+        wit.update(extra_witness)
 
     def v(kind, what, **more):
         sig = {'kind': kind}
@@ -887,6 +967,11 @@ def oracle(ctx, history, req_, pre_dump, obs, twin_factory=None, extra=None):
                 v('placeholder-lost', 'identifier-less %s failed (%s) although the batch created %s and did not destroy it' % (r['op'], r['message'], last_uid), position=k)
         if r['ok'] and r['op'] == 'DESTROY' and k < len(tch) and last_uid is not None and int(last_uid) in tch[k]:
             alive = False
+        if r['ok'] and creating(items[k]) and r['uid'] is not None and k < len(tch):
+            own = {int(r['uid'])} | ({int(r['uid']) - 1} if r['op'] == 'CREATE_KEY_PAIR' else set())
+            if not set(tch[k]) <= own:
+                v('creating-item-changed-other-objects', '%s answered with identifier %s but the objects %s appeared or changed while it ran' % (
+                    r['op'], r['uid'], sorted(set(tch[k]) - own)), op=r['op'])
         if r['ok'] and creating(items[k]):
             if r['uid'] is None:
                 v('creation-without-identifier', '%s succeeded without naming the object it created' % r['op'], position=k)
@@ -1035,6 +1120,50 @@ class Runner:
             done.append(r)
         return hits
 
+    def locked(self, steps, label):
+        """steps = [(request, indices of the items whose COMMIT the database refuses)].  While such an item runs a second
+        SQLite connection holds a read transaction on the file ('database is locked').  Direct oracle only; the twin engine
+        runs the reduced batch undisturbed."""
+        ctx = self.ctx
+        im = self.fresh(self.snapshot2())
+        hits, done, before = [], [], []
+        for r, lock_items in steps:
+            obs = im.run(r, lock_items=set(lock_items))
+
+            def twin_at_same_point(pfx=list(done)):
+                t = self.fresh_twin(self.snapshot2())
+                for q in pfx:
+                    t.run(q)
+                return t
+            refused = [k for k in lock_items if k < len(obs['results']) and not obs['results'][k]['ok']]
+            hits += oracle(ctx, self.raw_prefix + [q for q in done], r, None, obs, twin_at_same_point,
+                           extra_witness={'commit_refused_for_items': sorted(lock_items), 'locked_steps_before': list(before),
+                                          'how': 'a second sqlite3 connection holds BEGIN; SELECT on the database file while the item runs '
+                                                 '(busy timeout of the engine connections 60 ms)'})
+            ctx.case_seen(canon(['locked', r, sorted(lock_items), [(x['ok'], x['reason']) for x in obs['results']]]), nontrivial=True)
+            ctx.count('lock.requests')
+            for k in lock_items:
+                if k < len(obs['results']):
+                    x = obs['results'][k]
+                    ctx.count('lock.item.%s.%s' % (x['op'], 'ok' if x['ok'] else x['reason']))
+            before.append({'request': r, 'commit_refused_for_items': sorted(lock_items)})
+            # only the successful items of earlier requests are part of what the twin replays
+            keep = [k for k, x in enumerate(obs['results']) if x['ok']]
+            if keep:
+                done.append(dict(r, items=[r['items'][k] for k in keep]))
+            # across requests: the store is the effect of exactly the items that were reported successful so far
+            t = self.fresh_twin(self.snapshot2())
+            for q in done:
+                tobs = t.run(q)
+            if not obs['final_store_unreadable'] and (t.dump() != obs['dump_after']):
+                ctx.violation({'kind': 'store-differs-from-reported-successes', 'refused_commit': True},
+                              {'setup': 'harness/c08.py SETUP + RAW_SETUP', 'requests': [{'request': q, 'commit_refused_for_items': sorted(l)} for q, l in steps],
+                               'after_request': len(done), 'reported_successful_so_far': done,
+                               'how': 'a second sqlite3 connection holds BEGIN; SELECT on the database file while the marked items run'},
+                              'after a refused COMMIT the store is not what the reported successes alone produce (a failed item became visible later)')
+                hits.append('store-differs-from-reported-successes')
+        return hits
+
     def wire(self, prefix, r, max_size, label):
         """`prefix` in process, then `r` as bytes through the real KmipSession with Maximum Response Size `max_size`."""
         ctx = self.ctx
@@ -1158,7 +1287,7 @@ def gen_all(run, ctx):
     succ_same = lambda t: [I_modify(t, 'AName', 0, 51), I_delete(t, 'AName', 0), I_activate(t), I_revoke(t, True)]
     fl = [i for i in M]
     rng.shuffle(fl)
-    n_f = 45 if quick else len(fl)
+    n_f = 45 if quick else (len(fl) * 3) // 4
     for i in fl[:n_f]:
         t = i['b'][1] if i['b'][0] not in ('create', 'register', 'readonly', 'unsupported') else None
         tt = t if isinstance(t, int) and t in (1, 9, 7, 5) else 1
@@ -1180,7 +1309,7 @@ def gen_all(run, ctx):
                         continue
                     run.history([req([creator] + mid + [use, I_get(None, 'GET_ATTRIBUTES')], ver=ver, opt='CONTINUE', user=rng.choice(users))], 'placeholder')
     # (5) seeded random batches and histories
-    n_hist = 50 if quick else 500
+    n_hist = 50 if quick else 350
     for h in range(n_hist):
         reqs = []
         for _ in range(rng.randint(1, 4)):
@@ -1246,13 +1375,29 @@ def gen_sweep(run, ctx):
             for ver in [(1, 2)] + ([] if quick else [(1, 0), (2, 0)]):
                 run.sweep([req([I_raw(n), I_get(), I_activate(), I_get(None, 'GET_ATTRIBUTES'), I_raw('encrypt_placeholder')], ver=ver, opt='CONTINUE')],
                           'sweep:placeholder')
-    for _ in range(20 if quick else 400):
+    for _ in range(20 if quick else 250):
         reqs = []
         for _ in range(rng.randint(1, 3)):
             n = rng.randint(1, 4)
             items = [I_raw(rng.choice(names)) if rng.random() < 0.6 else copy.deepcopy(rng.choice(M)) for _ in range(n)]
             reqs.append(req(items, ver=rng.choice(VERSIONS), opt=rng.choice([None, 'CONTINUE', 'CONTINUE']), user=rng.choice(['alice', 'alice', 'bob'])))
         run.sweep(reqs, 'sweep:random')
+
+
+def gen_locked(run, ctx):
+    """A COMMIT the database refuses: the item is answered as failed, so nothing of it may ever become visible - neither
+    through a later item of the same batch nor through a later request."""
+    quick = ctx.tier == 'quick'
+    writers = [I_create(names=[101]), I_register(7, names=[102]), I_activate(1), I_revoke(1, True), I_destroy(5), I_modify(1, 'AName', 0, 103),
+               I_delete(9, 'AName', 1), I_raw('ckp'), I_raw('derive_ok')]
+    for w in writers:
+        run.locked([(req([w, I_create(names=[104]), I_get(1, 'GET_ATTRIBUTES')], opt='CONTINUE'), [0])], 'lock:L S R')
+        run.locked([(req([w]), [0]), (req([I_create(names=[105])]), []), (req([I_get(1, 'GET_ATTRIBUTES'), I_ro('LOCATE')]), [])], 'lock:L / S / R')
+        if not quick:
+            run.locked([(req([I_create(names=[106]), w, I_modify(9, 'AName', 0, 107), w], opt='CONTINUE'), [1])], 'lock:S L S W')
+            run.locked([(req([w, w], opt='CONTINUE', ver=(2, 0)), [0, 1]), (req([I_activate(9)]), [])], 'lock:L L / S')
+    run.locked([(req([I_set(9, 'ASens', 1), I_create(names=[108])], ver=(2, 0), opt='CONTINUE'), [0])], 'lock:L S')
+    run.locked([(req([I_get(1), I_create(names=[109])], opt='CONTINUE'), [0])], 'lock:read-only item under lock')
 
 
 def gen_wire(run, ctx):
@@ -1279,7 +1424,7 @@ def gen_wire(run, ctx):
         run.wire_sequence([(m['request'], rng.choice([None, None, 1, 100, 300, 600, 1048576])) for m in seqpool[k:k + 3]], 'wire:sequence:random')
     pool = [m for m in run.meta if m['label'] in ('random', 'placeholder', 'mix:F S S', 'mix:S F S', 'mix:F S', 'header:options', 'header:time stamp')]
     rng.shuffle(pool)
-    for m in pool[:(120 if quick else 1500)]:
+    for m in pool[:(120 if quick else 900)]:
         run.wire(m['history_after_setup'], m['request'], rng.choice([None, None, 0, 1, 100, 200, 300, 500, 1048576]), 'wire:' + m['label'])
 
 
@@ -1341,6 +1486,7 @@ def run(ctx):
     runner = Runner(ctx)
     gen_all(runner, ctx)
     gen_sweep(runner, ctx)
+    gen_locked(runner, ctx)
     ctx.log('%d requests processed by the implementation' % len(runner.cases))
     bad = ctx.run_cases('batch', HEADER, runner.cases, 'check_case',
                         what='Batch/Store.v process vs KmipEngine.process_request: error | (operation, batch id, success) list, per-item '
@@ -1368,6 +1514,19 @@ def replay(ctx, data):
     rc = 0
     for c in cands:
         r = Runner(ctx)
+        if 'locked_steps_before' in c:            # a refused-COMMIT witness: raw setup, then the earlier requests with their locks
+            im = r.fresh(r.snapshot2())
+            for stp in c['locked_steps_before']:
+                im.run(stp['request'], lock_items=set(stp['commit_refused_for_items']))
+            obs = im.run(c['request'], lock_items=set(c.get('commit_refused_for_items', [])))
+            hits = oracle(ctx, [], c['request'], None, obs, None)
+            print('replayed (refused COMMIT for items %s)' % c.get('commit_refused_for_items'), canon(c['request'])[:400])
+            print('  results:', [(x['op'], x['bid'], x['ok'], x['reason'], x['uid']) for x in obs['results']])
+            print('  per item (store changed, session dirty, placeholder):', obs['trace'], ' touched:', obs['touched'])
+            print('  direct oracle:', hits or 'no violation')
+            r.close()
+            rc = rc or (1 if hits else 0)
+            continue
         im = r.fresh()
         prefix = list(c.get('history_after_setup', []))
         for q in prefix:
